@@ -54,28 +54,29 @@ Qed.
 
 Lemma chan_step_ok e0 e K (blk : block) mm :
   good e0 e K -> K < 2 ^ 36 -> blk_cond mm blk -> (1 <= mm)%nat -> N.of_nat mm <= 65535 ->
+  N.of_nat mm <= si_max_bs (e_si e0) ->
   (match si_total (e_si e0) with Some t => true_samples e + N.of_nat mm <= t | None => True end) ->
   exists e', channel_encode_chunk (encB o L rate bps) p ch nb e blk = Ok e' /\
              good e0 e' (K + 1) /\ true_samples e' = true_samples e + N.of_nat mm.
 Proof.
-  intros G HK36 (Lb & Fl & Hfit) Hm Hmb Htot. unfold channel_encode_chunk.
+  intros G HK36 (Lb & Fl & Hfit) Hm Hmb Hmx Htot. unfold channel_encode_chunk.
   destruct (update_md5_ok rate bps ch Hrate Hb1 Hb32 Hc1 Hc8 (concat (multizip blk))) as [x Hx]. fold nb in Hx. rewrite Hx. cbn [bind].
   rewrite (fill_channels_ok blk mm Lb Fl Hm). cbn [bind].
   destruct (shaped_block_ok bps (si0 rate bps ch) ch 65535 mm blk Hc1 Hc8 Hb1 Hb32 eq_refl eq_refl eq_refl ltac:(lia) Lb Fl Hm Hmb Hfit)
     as (Hbok & Hbl).
-  apply (block_step_ok o L md5 md5_length p rate bps ch Hrate Hb1 Hb32 Hc1 Hc8 e0 e K x blk mm G HK36 Hbok Lb Hbl Hm Hmb Htot).
+  apply (block_step_ok o L md5 md5_length p rate bps ch Hrate Hb1 Hb32 Hc1 Hc8 e0 e K x blk mm G HK36 Hbok Lb Hbl Hm Hmb Hmx Htot).
 Qed.
 
-Lemma chan_blocks_run_ok e0 k : (1 <= k)%nat -> N.of_nat k <= 65535 -> forall blocks e K,
+Lemma chan_blocks_run_ok e0 k : (1 <= k)%nat -> N.of_nat k <= 65535 -> N.of_nat k <= si_max_bs (e_si e0) -> forall blocks e K,
   good e0 e K -> K + N.of_nat (length blocks) <= 2 ^ 36 -> Forall (blk_cond k) blocks ->
   (match si_total (e_si e0) with Some t => true_samples e + N.of_nat (k * length blocks) <= t | None => True end) ->
   exists e', fold_res (channel_encode_chunk (encB o L rate bps) p ch nb) e blocks = Ok e' /\
              good e0 e' (K + N.of_nat (length blocks)) /\ true_samples e' = true_samples e + N.of_nat (k * length blocks).
 Proof.
-  intros Hk Hkb. induction blocks as [|b bl IH]; intros e K G HK Hall Htot.
+  intros Hk Hkb Hmx. induction blocks as [|b bl IH]; intros e K G HK Hall Htot.
   - exists e. cbn [fold_res length]. rewrite Nat.mul_0_r, !N.add_0_r. auto.
   - apply Forall_cons_iff in Hall. destruct Hall as [Hb Hrest]. cbn [length] in *.
-    destruct (chan_step_ok e0 e K b k G ltac:(lia) Hb Hk Hkb) as (e1 & H1 & G1 & T1).
+    destruct (chan_step_ok e0 e K b k G ltac:(lia) Hb Hk Hkb Hmx) as (e1 & H1 & G1 & T1).
     { destruct (si_total (e_si e0)); [lia|exact I]. }
     destruct (IH e1 (K + 1) G1 ltac:(lia) Hrest) as (e2 & H2 & G2 & T2).
     { rewrite T1. destruct (si_total (e_si e0)); [lia|exact I]. }
@@ -109,7 +110,7 @@ Proof.
     destruct (N.eqb_spec T 0); [discriminate|]. injection Ht as <-. rewrite Htotal. split; [reflexivity|lia]. }
   destruct Et as [Et Ht1].
   destruct (encoder_new_inv0 p [] wo rate bps ch t e0 Hwf ltac:(lia) Ht1 He0) as (I0 & S0 & Fi0 & _).
-  destruct (encoder_new_fresh p rate bps wo ch t e0 He0) as (_ & F0 & _ & _ & _ & _ & Sc & _ & _ & St).
+  destruct (encoder_new_fresh p rate bps wo ch t e0 He0) as (_ & F0 & _ & _ & _ & _ & Sc & Mx & _ & St).
   assert (G0 : good e0 e0 0).
   { unfold good. split; [exact I0|]. split; [exact S0|]. split; [unfold frames_nonempty; rewrite Fi0; constructor|].
     split; [apply static_eq_refl|]. rewrite F0. unfold true_samples, true_bytes. rewrite Fi0. cbn. repeat split; lia. }
@@ -164,7 +165,8 @@ Proof.
   assert (Hblocks : Forall (blk_cond k) blocks).
   { apply Forall_forall. intros b Hb. rewrite Forall_forall in Fsh. destruct (Fsh b Hb) as [Lb Fb']. split; [exact Lb|]. split; [exact Fb'|]. apply Hin. left. exact Hb. }
   assert (Hcount : N.of_nat (length blocks) + 1 <= 2 ^ 36) by nia.
-  destruct (chan_blocks_run_ok e0 k ltac:(lia) ltac:(unfold k; lia) blocks e0 0 G0 ltac:(lia) Hblocks) as (e1 & H1 & G1 & T1).
+  assert (Hmxk : N.of_nat k <= si_max_bs (e_si e0)) by (rewrite Mx; unfold k; lia).
+  destruct (chan_blocks_run_ok e0 k ltac:(lia) ltac:(unfold k; lia) Hmxk blocks e0 0 G0 ltac:(lia) Hblocks) as (e1 & H1 & G1 & T1).
   { rewrite St, Et, T0. destruct total; cbv iota; [lia|exact I]. }
   rewrite H1. cbn [bind].
   unfold channel_finalize. cbn [cw_bufs cw_channels cw_bytes_per_sample cw_enc].
@@ -177,7 +179,7 @@ Proof.
     - exists e1. split; [reflexivity|]. split; [eauto|]. rewrite T1, T0, Hm, E0. lia.
     - destruct (chan_step_ok e0 e1 _ rest r G1 ltac:(lia)) as (e2 & H2 & G2 & T2).
       { split; [exact Lrest|]. split; [exact Urest|]. apply Hin. right. reflexivity. }
-      { lia. } { unfold k in Hrk. lia. }
+      { lia. } { unfold k in Hrk. lia. } { unfold k in Hrk, Hmxk. lia. }
       { rewrite St, Et, T1, T0. destruct total; cbv iota; [lia|exact I]. }
       exists e2. split; [exact H2|]. split; [eauto|]. rewrite T2, T1, T0, Hm. lia. }
   destruct Hlast as (e2 & H2 & (K2 & G2) & T2). rewrite H2. cbn [bind].
